@@ -282,7 +282,27 @@ Theorem fold_conditions_sound :
     0 < n /\ stride = n * s /\ width mod n = 0 /\ (kw + l + r) mod n = 0 /\ pad_new * n - l = pad_old.
 Proof. exact fold_conditions_sound_lemma. Qed.
 
+(* ---- convert_prelu: PRELU with constant slopes ---- *)
+(* slope a / d with d > 0; values scaled by d.  MAXIMUM (x, slope * x) is PRELU when the slope is at most 1 ... *)
+Theorem prelu_as_maximum : forall a d x, 0 < d -> a <= d -> Z.max (a * x) (d * x) = prelu_val a d x.
+Proof. exact prelu_as_max_lemma. Qed.
+(* ... and not otherwise *)
+Theorem prelu_as_maximum_needs_slope_at_most_one : exists a d x, 0 < d /\ Z.max (a * x) (d * x) <> prelu_val a d x.
+Proof. exact prelu_as_max_needs_slope_below_one_lemma. Qed.
+(* RELU (x) + slope * MINIMUM (x, 0) is PRELU for every slope *)
+Theorem prelu_as_relu_plus_minimum : forall a d x, d * Z.max x 0 + a * Z.min x 0 = prelu_val a d x.
+Proof. exact prelu_as_relu_plus_min_lemma. Qed.
+(* when the decision is MAXIMUM every slope of the tensor is below 1 *)
+Theorem prelu_kind_maximum_sound :
+  forall codes zp sn sd, 0 < sn -> 0 < sd -> prelu_kind codes zp sn sd = 2 ->
+    forall c, In c codes -> (c - zp) * sn < sd.
+Proof. exact prelu_kind_max_sound_lemma. Qed.
+
 Print Assumptions space_to_batch_conv_batch_to_space_is_dilation.
+Print Assumptions prelu_as_maximum.
+Print Assumptions prelu_as_maximum_needs_slope_at_most_one.
+Print Assumptions prelu_as_relu_plus_minimum.
+Print Assumptions prelu_kind_maximum_sound.
 Print Assumptions width_folded_convolution_is_strided_convolution.
 Print Assumptions fold_conditions_sound.
 Print Assumptions split_convolve_concatenate_is_grouped_convolution.
